@@ -2,12 +2,24 @@ package main
 
 // polysim-lcont: isolated command for the Ontology / NEO / NEO N3 light-client engine
 // (C31, C24, and the "ont"/"neo"/"neo3" lc drivers).
+//
+// With LCONT_C19=1 in the environment the router-generic check C19 is registered over these
+// three drivers only (driver smoke test; run the binary with -verifdir /verif/.build/altout
+// so that the committed evidence of the full C19 is not overwritten).
 
 import (
+	"os"
 	"testing"
 
 	"polysim/cli"
+	"polysim/engines/lc"
 	_ "polysim/engines/lcont"
 )
+
+func init() {
+	if os.Getenv("LCONT_C19") == "1" {
+		lc.Finalize()
+	}
+}
 
 func TestSim(t *testing.T) { cli.Main(t) }
